@@ -518,6 +518,62 @@ fn test_round(c: &Case, cx: &mut Cx) -> CaseResult {
             }
         }
     }
+    // (c') with increment 1 and a calendar smallest unit, rounding away from zero lands on the
+    // result of rounding toward zero or exactly one unit further (in the decomposition of the
+    // truncated result). This pins the prefix of larger units, which the neighbour test above
+    // deliberately leaves open: `29d` to weeks with largest=month must be 4w or 5w, not `1mo`.
+    if inc == 1 && u <= 3 && end != origin {
+        let both = with_rel(c, &rf, |rel| {
+            let mk = |m: jiff::RoundMode| {
+                let mut o = SpanRound::new().smallest(UNITS[u]).mode(m).increment(1);
+                if let Some(lg) = l_given {
+                    o = o.largest(UNITS[lg]);
+                }
+                if let Some(r) = rel {
+                    o = o.relative(r);
+                }
+                a.round(o)
+            };
+            (mk(jiff::RoundMode::Trunc), mk(jiff::RoundMode::Expand))
+        });
+        if let (Ok(rt), Ok(re)) = both {
+            let (ft, fe) = (span_fields(&rt), span_fields(&re));
+            let dir = (end - origin).signum();
+            let mut ft1 = ft;
+            ft1[u] += dir;
+            if let (Ok(xt), Ok(xe), Ok(xt1)) = (rf.add(&parts(&ft)), rf.add(&parts(&fe)), rf.add(&parts(&ft1))) {
+                cx.class("round: expand compared with trunc (increment 1, calendar smallest unit)");
+                if xe != xt && xe != xt1 {
+                    let later_fold_instant = |t: i128| -> bool {
+                        match &rf {
+                            Ref::Zoned(z, _) => rz::compatible(&z.rz, rz::local_of(&z.rz, t).0).map_or(false, |c| c != t),
+                            _ => false,
+                        }
+                    };
+                    let ref_day = match &rf {
+                        Ref::Civil(c) => c.2,
+                        Ref::Zoned(z, t) => rz::civil_parts(rz::local_of(&z.rz, *t).0).2,
+                        _ => 0,
+                    };
+                    let day_of = |p: i128| match &rf {
+                        Ref::Civil(_) => rz::civil_parts(p).2,
+                        Ref::Zoned(z, _) => rz::civil_parts(rz::local_of(&z.rz, p).0).2,
+                        _ => 0,
+                    };
+                    if later_fold_instant(origin) || later_fold_instant(end) || later_fold_instant(xe) || later_fold_instant(xt) || wall_and_instant_order_disagree(&rf, end) || skips_a_day_near(&rf, origin, end, 800) {
+                        cx.class("round: expand vs trunc next to a fold or day-skipping transition (no verdict)");
+                    } else if day_of(xe) < ref_day || day_of(xt) < ref_day || day_of(xt1) < ref_day {
+                        cx.class("round: expand vs trunc on a clamped day of month (Temporal semantics; no verdict)");
+                    } else {
+                        cx.soft_fail(
+                            format!("round-expand-not-adjacent-to-trunc:smallest={}:relative={}", UNIT_NAMES[u], refname(&rf)),
+                            format!("{:?}.round(smallest={}, largest={}, relative={}): trunc = {rt:?} (reference+ = {xt}), expand = {re:?} (reference+ = {xe}); one {} further than trunc is {xt1}", c.a, UNIT_NAMES[u], l_given.map(|i| UNIT_NAMES[i]).unwrap_or("default"), refname(&rf), UNIT_NAMES[u]),
+                        );
+                    }
+                }
+            }
+        }
+    }
     // (d) uniform units: exact answer
     let uniform = largest_idx(&fa).min(l) >= rf.uniform_from() && (u >= 4 || !rf.has_reference() || (matches!(rf, Ref::Civil(_)) && u == 3));
     if uniform {
